@@ -95,6 +95,34 @@ def _has_quant(f):
     return False
 
 
+def concretize_value(v, model):
+    """engine value -> plain JSON-able Python value under a solver model (used by the differential check)"""
+    from .sym import SBool, SNum, BStr, SObj, StrId, Fraction
+    ev = lambda t: model.eval(t, model_completion=True)
+    if isinstance(v, SBool):
+        return z3.is_true(ev(v.t))
+    if isinstance(v, SNum):
+        x = ev(v.t)
+        if v.is_int:
+            return x.as_long()
+        return float(Fraction(x.numerator_as_long(), x.denominator_as_long()))
+    if isinstance(v, Fraction):
+        return float(v)
+    if isinstance(v, BStr):
+        return v.concretize(model)
+    if isinstance(v, StrId):
+        return StrId.decode(ev(v.t).as_long())
+    if isinstance(v, (list, tuple)):
+        return [concretize_value(x, model) for x in v]
+    if isinstance(v, dict):
+        return {str(k): concretize_value(x, model) for k, x in v.items()}
+    if isinstance(v, SObj):
+        return {"__obj__": v.cls, **{k: concretize_value(x, model) for k, x in v.fields.items()}}
+    if v is None or isinstance(v, (bool, int, float, str)):
+        return v
+    return repr(v)
+
+
 class Results:
     """collects obligation records of one unit"""
 
@@ -106,6 +134,7 @@ class Results:
         self.assumptions = []
         self.paths = 0
         self.vacuous = 0
+        self.diffs = []
 
     def _oid(self, kind):
         n = self.counts.get(kind, 0)
@@ -126,6 +155,29 @@ class Results:
             rec["reason"] = r.get("reason")
         self.obls.append(rec)
         return rec
+
+    def add_diff(self, paths, replay, args, predict=None, limit=25):
+        """differential check of the ENGINE: for sampled returning/raising paths pick a model of the path condition, run the
+        real function natively on the concretised inputs (replay/native.py --batch) and compare with what the engine computed"""
+        cand = [p for p in paths if p.outcome[0] in ("ret", "exc")]
+        step = max(1, len(cand) // limit)
+        for p in cand[::step][:limit]:
+            s_ = z3.Solver()
+            s_.set("timeout", 5000)
+            for c in p.pc:
+                s_.add(c)
+            if s_.check() != z3.sat:
+                continue
+            m = s_.model()
+            try:
+                a = args(m, p)
+                if p.outcome[0] == "ret":
+                    want = predict(p.outcome[1], m, p) if predict else concretize_value(p.outcome[1], m)
+                else:
+                    want = {"__raises__": p.outcome[1]}
+            except Exception as e:
+                continue
+            self.diffs.append(dict(replay=replay, args=a, predicted=want))
 
     def add_paths(self, paths, post=None, exc_ok=None, concretize=None, kind="post", label="P", check_vacuity=True):
         """obligations of explored paths: the ones raised during execution (loop init/step, yields, callee
@@ -161,6 +213,43 @@ class Results:
                     paths=self.paths, vacuous_paths=self.vacuous)
 
 
+def run_diffs(res):
+    """engine-vs-CPython: batch-execute the natively replayable cases and compare"""
+    with tempfile.NamedTemporaryFile("w", suffix=".json", delete=False) as f:
+        json.dump(res.diffs, f, default=str)
+        path = f.name
+    try:
+        env = dict(os.environ)
+        env["PYTHONPATH"] = REPO + os.pathsep + VERIF
+        p = subprocess.run([VENV_PY, os.path.join(VERIF, "replay", "native.py"), "--batch", path], capture_output=True, text=True, timeout=600, env=env, cwd=REPO)
+        lines = [l for l in p.stdout.strip().split("\n") if l.startswith("[")]
+        got = json.loads(lines[-1]) if lines else None
+    finally:
+        os.unlink(path)
+    if got is None:
+        res.note("differential check could not run: " + (p.stderr[-300:] if p else ""))
+        return
+    n_bad = 0
+
+    def close(a, b):
+        if isinstance(a, (int, float)) and isinstance(b, (int, float)) and not isinstance(a, bool) and not isinstance(b, bool):
+            return abs(float(a) - float(b)) <= 1e-9 * max(1.0, abs(float(a)))
+        if isinstance(a, list) and isinstance(b, list):
+            return len(a) == len(b) and all(close(x, y) for x, y in zip(a, b))
+        if isinstance(a, dict) and isinstance(b, dict):
+            return set(a) == set(b) and all(close(a[k], b[k]) for k in a)
+        return a == b
+
+    for case, g in zip(res.diffs, got):
+        if not close(case["predicted"], g):
+            n_bad += 1
+            if n_bad <= 3:
+                res.obls.append(dict(id=res._oid("engine-vs-cpython"), status="failed", backend="differential", time=0, label="D", checker=True,
+                                     detail=f"pyvc predicted {case['predicted']!r} but CPython computed {g!r} for {case['replay']}({case['args']})"))
+    res.note(f"differential check of the engine against CPython: {len(got)} path witnesses, {n_bad} mismatches")
+    res.diff_cases = len(got)
+
+
 # ------------------------------------------------------------------ units
 class Unit:
     def __init__(self, uid, fn, label="P", functions=(), decisive=True, timeout=600, tier="quick", kind="prove", desc=""):
@@ -176,6 +265,8 @@ def _run_unit(args):
         mod = importlib.import_module(modname)
         unit = [u for u in mod.units(tier) if u.id == uid][0]
         res = unit.fn(Results(uid)) if unit.kind == "prove" else unit.fn(tier, seed)
+        if isinstance(res, Results) and res.diffs:
+            run_diffs(res)
         d = res.to_dict() if isinstance(res, Results) else res
         d.setdefault("unit", uid)
         d.setdefault("status", "ok")
@@ -324,6 +415,9 @@ def main(argv=None):
             if r.get("paths") and r.get("vacuous_paths") == r.get("paths"):
                 crashes.append((u, "all paths vacuous: contradictory precondition", None))
         for o in obls:
+            if o["status"] == "failed" and o.get("checker"):
+                crashes.append((u, "engine disagrees with CPython: " + str(o.get("detail")), None))
+                continue
             if o["status"] == "failed":
                 key = o.get("key") or (o.get("cex") or {}).get("key")
                 kf = [f for f in known if finding_matches(f, prop, o["id"], key)]
